@@ -223,6 +223,9 @@ class Executor:
             else:
                 real = getattr(ref.obj, attr)
                 v = self.symbolize_initial(ref, attr, real, path)
+            tf = getattr(ctx, "transform", {}).get(key)
+            if tf is not None:
+                v = tf(self, v)       # relational second run: this input is a function of the first run's input
             ctx.initial_memo[key] = v
         if isinstance(v, Seq):
             # initial sequence: give it a deterministic cell
@@ -469,6 +472,9 @@ class Executor:
 
     def getattr_value(self, base, attr, st, node=None):
         import numpy as np
+        from .values import Phi
+        if isinstance(base, Phi):
+            self.unsupported(node, f"use of a path-dependent concrete value ({base!r}).{attr}")
         if isinstance(base, Ref):
             return self.read_attr(st, base, attr, node)
         if isinstance(base, (CellRef, Seq)):
@@ -512,7 +518,7 @@ class Executor:
             v = getattr(base, attr)
         except AttributeError:
             raise PathRaise(AttributeError, f"{base!r}.{attr}")
-        if isinstance(base, (str, dict, list, tuple, float, int)) and callable(v):
+        if isinstance(base, (str, dict, list, tuple, float, int)) and callable(v) and not isinstance(base, enum.Enum):
             return BoundMethod(base, attr)
         return self.wrap(v)
 
